@@ -213,14 +213,35 @@ static bool handle_token(unsigned char uch, long file_pos,
   return true;
 }
 
+/* Count the occurrences of the token |needle| in a line.  Bytes inside
+   string literals and the three operand bytes of a line number
+   reference (0x8D) are data, not keywords, so they are not counted. */
 static int count(unsigned char needle, const char* haystack, size_t len)
 {
   int n = 0;
+  bool in_string = false;
   const unsigned char *p = (const unsigned char*)haystack;
   while (len--)
     {
-      if (*p++ == needle)
-	++n;
+      const unsigned char ch = *p++;
+      if (ch == '"')
+	{
+	  in_string = !in_string;
+	}
+      else if (in_string)
+	{
+	  continue;
+	}
+      else if (ch == 0x8D)
+	{
+	  const size_t skip = len < 3u ? len : 3u;
+	  p += skip;
+	  len -= skip;
+	}
+      else if (ch == needle)
+	{
+	  ++n;
+	}
     }
   return n;
 }
